@@ -27,7 +27,8 @@ CMD_REF = {'breakpoint wl_surface': ('wl_surface', ['wl_surface'], []), 'breakpo
 MSG_KINDS = ['commit', 'motion', 'enter', 'name', 'orphan']
 CONNS = ('1', '2', '3')
 # every kind on two connections; a third connection (needed to tell "the selected one" from "not the closed one") carries two
-MSGS = [(c, k) for c in ('1', '2') for k in MSG_KINDS] + [('3', 'commit'), ('3', 'motion')]
+# ... and the first program may announce an application id that reads like the name of the second connection
+MSGS = [(c, k) for c in ('1', '2') for k in MSG_KINDS] + [('3', 'commit'), ('3', 'motion'), ('1', 'appid')]
 
 
 def _u(conn, sent, iface, oid, name, args):
@@ -41,6 +42,9 @@ def prelude(conn):
         _u(conn, True, 'wl_compositor', 3, 'create_surface', [['new', 'wl_surface', 4]]),
         _u(conn, True, 'wl_registry', 2, 'bind', [['int', 2], ['str', 'wl_seat'], ['int', 5], ['new', None, 5]]),
         _u(conn, True, 'wl_seat', 5, 'get_pointer', [['new', 'wl_pointer', 6]]),
+        _u(conn, True, 'wl_registry', 2, 'bind', [['int', 3], ['str', 'xdg_wm_base'], ['int', 2], ['new', None, 7]]),
+        _u(conn, True, 'xdg_wm_base', 7, 'get_xdg_surface', [['new', 'xdg_surface', 8], ['obj', 'wl_surface', 4]]),
+        _u(conn, True, 'xdg_surface', 8, 'get_toplevel', [['new', 'xdg_toplevel', 9]]),
     ]
 
 
@@ -51,6 +55,8 @@ def message_for(conn, kind):
         return _u(conn, False, 'wl_pointer', 6, 'motion', [['int', 1], ['fixed', 256], ['fixed', 512]])
     if kind == 'enter':
         return _u(conn, False, 'wl_pointer', 6, 'enter', [['int', 7], ['obj', 'wl_surface', 4], ['fixed', 0], ['fixed', 0]])
+    if kind == 'appid':
+        return _u(conn, True, 'xdg_toplevel', 9, 'set_app_id', [['str', 'b']])
     if kind == 'orphan':      # an event on a surface GDB never saw being created (attached late): still a wl_surface message
         return _u(conn, False, 'wl_surface', 99, 'enter', [['nil']])
     return _u(conn, False, 'wl_seat', 5, 'name', [['str', 'wl_seat']])
@@ -74,11 +80,12 @@ class RefPause:
         self.filter = 'all'      # the output filter must not influence halting, but it is part of the state
         self.impl_bp = None      # the implementation's own printed breakpoint: states that print differently are not merged
         self.closed = set()      # connections libwayland has destroyed
+        self.appid = False       # the first connection has announced the application id `b` (part of what a name may refer to)
         # selection: None = all, a name, or '?' once the selected connection itself was destroyed (what is selected then
         # is not specified: nothing about halting is demanded until the user selects again)
 
     def key(self):
-        return [self.bp.key(), self.selection, self.halted, self.quit, self.filter, self.impl_bp, sorted(self.closed)]
+        return [self.bp.key(), self.selection, self.halted, self.quit, self.filter, self.impl_bp, sorted(self.closed), self.appid]
 
     def enabled(self):
         if self.quit:
@@ -142,6 +149,8 @@ def run_hist(init_bp, hist, check_from=0):
             checked = n >= check_from
             if e[0] == 'msg':
                 ref.halted = deliver(n, checked)
+                if e[2] == 'appid':
+                    ref.appid = True
             elif e[0] == 'continue':
                 ref.halted = False
             elif e[0] == 'destroy':
